@@ -149,7 +149,7 @@ func vpInList(l []string, s string) bool {
 //vp:set hosts 2 3
 //vp:set affix 1 1
 //vp:set s 1 1
-//vp:set budget 200 1800
+//vp:set budget 900 2400
 //vp:set maxpaths 200000 1500000
 //vp:bounds session authenticated or not; selection mode in {roundrobin, signed, unsigned, any, other}; 1..hosts entries prefix++[placeholder]++suffix (affixes <= affix bytes); host query parameter absent, or one or two values of <= s+1 bytes each; query-token verdict arbitrary (verified in VP_C12_queryinfo) with subject <= s+1 bytes; user name of <= s+1 bytes with or without '@'; domain splitting, user-name template, no-username switches; token generators succeeding/failing
 //vp:reach served refused unauth
